@@ -8,18 +8,21 @@ TRUSTED = ['harness/proj_impl.py (calls the implementation\'s own to_cpp())']
 
 
 def project(p):
-    """every C++ type spelling of every instantiated member, with names and defaults"""
+    """every C++ type spelling of every instantiated member, with names and defaults; keyed by the
+    instantiation's C++ name and sorted, so that order (C08's business) does not matter here"""
+    import sexp as _s
     out = []
     for it in p:
         k = it[0]
         if k == 'class':
-            out.append(['class', it[1], it[4], [c[2] for c in it[5]], [[m[0], m[2], m[3], m[4]] for m in it[6]],
-                        [[m[0], m[2], m[3]] for m in it[7]], it[8], it[9]])
+            out.append(['class', it[2], it[4], sorted(_s.dumps(c[2]) for c in it[5]),
+                        sorted(_s.dumps([m[0], m[2], m[3], m[4]]) for m in it[6]),
+                        sorted(_s.dumps([m[0], m[2], m[3]]) for m in it[7]), it[8], it[9]])
         elif k == 'fun':
-            out.append(['fun', it[1], it[4], it[5]])
+            out.append(['fun', it[2], it[4], it[5]])
         elif k == 'ns':
             out.append(['ns', it[1], project(it[2])])
-    return out
+    return sorted(out, key=_s.dumps)
 
 
 def run(rep, tier, seed, replay=None, proof_ok=True):
@@ -30,16 +33,6 @@ def run(rep, tier, seed, replay=None, proof_ok=True):
     q = ic.detect_quirks()
     rep.coverage['quirks_detected'] = dict(zip(ic.QUIRK_BITS, q))
     report_known(rep, q, 'C02')
-    # the unconditional part of the known finding C02-first-level-only is pinned by its witness
-    for f in ic.known_findings():
-        if f['id'] == 'C02-first-level-only':
-            m = ic.impl_instantiate(f['witness'])
-            cpp = [a.ctype.to_cpp() for a in m.content[0].methods[0].args.list()]
-            still = cpp == ['std::vector<std::vector<T>>', 'vector<This>']
-            if still and f['status'] == 'open':
-                rep.known('%s: %s [witness: %s]' % (f['id'], f['what_fails'], f['witness']))
-            elif still:
-                rep.violation({'kind': 'counterexample', 'what': 'fixed finding returned', 'input': f['witness']})
     if replay:
         texts = [('replay', json.load(open(replay))['input'])]
         stats = {}
